@@ -74,8 +74,17 @@ func runELScenario(seed uint64, size int, t *Trace) {
 		f()
 		return false
 	}
-	for i := 0; i < size; i++ {
-		if r.Chance(40) {
+	// one scenario in six logs one line several hundred times in a row (a device that repeats itself for
+	// days), then goes on as usual: however often a line was repeated, its newest repeat is what counts
+	burstLeft, burstLine, burstDone := 0, "", false
+	for i := 0; i < size || burstLeft > 0; i++ {
+		if !burstDone && seed%6 == 3 && i == size/3 {
+			burstDone = true
+			burstLeft = 257 + r.Intn(80)
+			burstLine = alphabet[r.Intn(len(alphabet))]
+			t.Count("el.burst-of-repeats")
+		}
+		if burstLeft == 0 && r.Chance(40) {
 			time.Sleep(time.Duration(r.Intn(1500)) * time.Microsecond)
 		}
 		// ambiguity guard: a stored update that sits on the expiry cut of a call whose clock value we only know as an interval
@@ -90,10 +99,17 @@ func runELScenario(seed uint64, size int, t *Trace) {
 			}
 			return false
 		}
-		switch r.pick([]int{60, 20, 20}) {
+		kind := r.pick([]int{60, 20, 20})
+		if burstLeft > 0 {
+			kind = 0
+		}
+		switch kind {
 		case 0:
 			var line string
-			if r.Chance(70) {
+			if burstLeft > 0 {
+				line = burstLine
+				burstLeft--
+			} else if r.Chance(70) {
 				line = alphabet[r.Intn(len(alphabet))]
 			} else {
 				line = strings.Repeat("z", r.Intn(2*maxLine+3)) + strconv.Itoa(i)
